@@ -41,6 +41,19 @@ def run(tier):
     for name, b in gold:
         for m in mset:
             scen.append({"base": {"raw": list(b), "name": name}, "mut": m})
+    # damaged inputs: one octet of an independent-encoder packet replaced (mutation "lie": layer = position, n = value);
+    # judged by the weak clause set (same stack, re-parse succeeds, idempotent) - see RoundTrip!WeakRoundTripOK
+    lie_vals = [0, 1, 2, 3, 4, 63, 64, 127, 128, 192, 255]
+    lies = []
+    for name, b in gold:
+        if name.startswith("dns_"):
+            continue
+        for pos in range(12, min(len(b), 100)):
+            for val in set(lie_vals + [(b[pos] - 1) & 255, (b[pos] + 1) & 255, b[pos] ^ 0x80]):
+                if val != b[pos]:
+                    lies.append({"base": {"raw": list(b), "name": name}, "mut": {"k": "lie", "layer": pos, "n": val}})
+    rng.shuffle(lies)
+    scen += lies[: (15000 if quick else len(lies))]
     p = vlib.Pipeline(PROP, "wire_rt", "wire/RoundTripTrace")
     chunk = 8000
     for i in range(0, len(scen), chunk):
@@ -59,7 +72,8 @@ def run(tier):
                 "errors with RFC 4884 extensions, ICMPv6 ND/RA/MLD2, RadioTap, 802.11 management/control/data incl. 4-address "
                 "and QoS, EAPOL, IP-in-IP - a seeded sample of WireGen shapes, and packets from the independent Python encoder tools/pyenc.py incl. IPv6 chains of up to 4 extension headers, IPv4 options and unpadded short frames / fragments) x structural mutation enumerated by TLC "
                 "(unknown next-protocol value in layer i, trailing bytes, none); non-trivial = mutated; inputs libtins rejects or "
-                "mutations that do not apply are outside the property and counted as oracle_silent",
+                "mutations that do not apply are outside the property and counted as oracle_silent; plus single-octet lies on the independent "
+                "encoder's packets (every position below 100 x 14 values, sampled in quick) judged by the weak clause set",
         "replay": p.stats, "exhaustive": False,
     }
     vlib.write_evidence(PROP, tier, "exploration", cov, time.time() - t0, len(v.violations), [
